@@ -234,6 +234,24 @@ fn configs(tier: Tier) -> Vec<Config> {
 			}
 		}
 	}
+	// a line given again after a line of the opposite polarity (within one file, or spread over
+	// two or three files of one directory): the list is ordered and the last match decides, so
+	// the repeat is not redundant
+	{
+		let pos: Vec<&String> = l14.iter().filter(|l| !l.starts_with('!')).collect();
+		let neg: Vec<&String> = l14.iter().filter(|l| l.starts_with('!')).collect();
+		for s in SITES {
+			for p in &pos {
+				for n in &neg {
+					out.push(Config { files: vec![fs(s, &[p, n, p])] });
+					out.push(Config { files: vec![fs(s, &[n, p, n])] });
+					out.push(Config { files: vec![fs(s, &[p, n]), fs(s, &[p])] });
+					out.push(Config { files: vec![fs(s, &[p]), fs(s, &[n, p])] });
+					out.push(Config { files: vec![fs(s, &[p]), fs(s, &[n]), fs(s, &[p])] });
+				}
+			}
+		}
+	}
 	if tier == Tier::Quick {
 		// three files along a "prefix-sibling chain": an outer file, a file in `test` (resp.
 		// `tests`) and a file *below* the sibling `tests` (resp. `test`) with none in the
